@@ -4,9 +4,10 @@
 EXTENDS Aliasing
 
 ConsNone  == {<<>>}
-ConsTwo   == {<<>>, <<1, 2>>, <<2, 3>>}
-ConsTwoV2 == {<<>>, <<1, 2>>, <<2, 2>>}
-ConsThree == {<<>>, <<1, 2>>, <<2, 3>>, <<1, 3>>}
+ConsTwo   == {<<>>, <<1, 2, TRUE, TRUE>>, <<2, 3, TRUE, TRUE>>}
+ConsTwoV2 == {<<>>, <<1, 2, TRUE, TRUE>>, <<2, 2, TRUE, TRUE>>}
+ConsOpen  == {<<>>, <<1, 3, FALSE, TRUE>>, <<1, 3, TRUE, FALSE>>, <<2, 3, TRUE, TRUE>>}
+ConsThree == {<<>>, <<1, 2, TRUE, TRUE>>, <<2, 3, TRUE, TRUE>>, <<1, 3, FALSE, TRUE>>}
 ParAll    == {Names}
 MapsNone  == {}
 MapsAll   == UNION {[D -> Names] : D \in SUBSET Names}      \* every map over the names: (|Names|+1)^|Names|
@@ -24,7 +25,7 @@ SpecSC == Init /\ [][NextSC]_vars
 \* (an entry whose source is a pending key is retried without advancing) must
 \* violate BulkTerminates.
 BulkIterStuck(R, b) ==
-  IF b.cur # 0 /\ b.rest[b.cur] \notin b.have /\ b.rest[b.cur] \in R.par THEN [R |-> R, b |-> b] ELSE BulkIter(R, b)
+  IF b.cur # 0 /\ b.rest[b.cur] \notin b.have /\ b.rest[b.cur] \in R.par THEN [R |-> R, b |-> b] ELSE BulkIter(R, b, TRUE)
 BulkStepStuck ==
   /\ bulk.pc = "loop"
   /\ LET S == BulkIterStuck(own[bulk.o], bulk) IN Upd(bulk.o, S.R) /\ bulk' = S.b
